@@ -232,7 +232,7 @@ func init() {
 		{"string-offset", "<?php \"$a[", "]\";"}, {"dollar-brace", "<?php \"${", "}\";"}, {"halt-tail", "<?php __halt_compiler();", ""},
 		{"double-quoted-unterminated", "<?php \"x", ""},
 	}
-	units := []string{" ", "\t", "\n", "\r\n", "\\", "$", "{", "a", "0", "<", "?", "-", "*", "/", "#", "\"", "'", "`", "$a", "{$", "->", "\\\\", " A\n", "A\n", "\n A", " \n", "\\$", "\\\"", "?>", "<?"}
+	units := []string{" ", "\t", "\n", "\r\n", "\\", "$", "{", "a", "0", "<", "?", "-", "*", "/", "#", "\"", "'", "`", "$a", "{$", "->", "\\\\", " A\n", "A\n", "\n A", " \n", "\\$", "\\\"", "?>", "<?", "/* ", "/** ", "/*\n", "' ", "\" ", "` ", "<<<A ", "<<<A\n", "(", "[", "b\"", "=> ", "?:", "::", "{$a", "${a", "$a[", "$a->"}
 	// the scaled valid programs (G3v) as scaling shapes: size n = bytes
 	for _, sh := range gen.ScaledShapes {
 		sh := sh
